@@ -167,6 +167,11 @@ func CheckC06(run *Run) {
 					if op == nil {
 						continue
 					}
+					// routes that demand headers answer 400 to the header-less calls of this check (header values are
+					// C09's subject; they are not captured here)
+					if len(svc.Headers) > 0 || len(md.Headers) > 0 {
+						continue
+					}
 					in := g.Built.MessageDesc(md.In)
 					out := g.Built.MessageDesc(md.Out)
 					for k := 0; k < perRPC+2; k++ {
